@@ -4,6 +4,8 @@
 import BorshModel.Lemmas.DeSim
 import BorshModel.Lemmas.ScriptRead
 import BorshModel.Lemmas.Slice
+import BorshModel.Lemmas.DeSimB
+import BorshModel.Lemmas.ScriptStop
 namespace Borsh
 
 /-- a slice and a scripted reader stand at the same point of the same stream -/
@@ -117,6 +119,146 @@ example :
     (match fromReader (Rd.script ⟨[1, 2], none⟩) false (.str .string)
         ⟨[2, 0, 0, 0, 104, 105], 0, [(1, 2), (5, 1), (6, 3)]⟩ with
      | .ok r => Val.beq r.1 (.blob [104, 105]) && r.2.pos == 6
+     | _ => false) = true := by
+  decide +kernel
+
+/-! ### a genuine reader failure -/
+
+/-- slice and scripted reader stand at the same point of the stream `d`, at or before offset `o` -/
+def SameStreamUpTo (d : Bytes) (o : Nat) (bs : Bytes) (s : RState) : Prop :=
+  s.data = d ∧ s.pos ≤ o ∧ bs = d.drop s.pos
+
+/-- how far into `d` a slice decoder that still holds `bs` has advanced -/
+def slicePos (d : Bytes) (bs : Bytes) : Nat := d.length - bs.length
+
+theorem script_rdSimB (sc : Script) (o : Nat) (k : Kind) (id : Nat)
+    (hstop : sc.stop = some (o, .fail k id)) (hk : k ≠ .interrupted) (d : Bytes) (ho : o ≤ d.length) :
+    RdSimB (SameStreamUpTo d o) (slicePos d) o (userErr k id) Rd.slice (Rd.script sc) := by
+  constructor
+  · intro n
+    refine ⟨?_, ?_⟩
+    · intro bs a ha
+      rw [slice_readExact] at ha
+      split at ha
+      · cases ha; simp only [slicePos, List.length_drop]; omega
+      · cases ha
+    · intro bs s ⟨hd, hpos, hbs⟩ _
+      have hs := script_readExact_stop sc o k id hstop hk n s hpos (by rw [hd]; exact ho)
+      rw [slice_readExact]
+      have hlen : bs.length = d.length - s.pos := by rw [hbs]; simp
+      by_cases hn : s.pos + n ≤ o
+      · obtain ⟨s', h1, h2⟩ := hs.1 hn
+        have hle : n ≤ bs.length := by omega
+        simp only [hle, if_true, RelB, slicePos, List.length_drop]
+        have : d.length - (bs.length - n) ≤ o := by omega
+        simp only [this, if_true]
+        refine ⟨s', ?_, ?_, ?_, ?_⟩
+        · rw [h1, hbs, hd]
+        · rw [h2.data, hd]
+        · rw [h2.pos]; exact hn
+        · rw [h2.pos, hbs, List.drop_drop]
+      · have h1 := hs.2 hn
+        rw [h1]
+        by_cases hle : n ≤ bs.length
+        · simp only [hle, if_true, RelB, slicePos, List.length_drop]
+          have : ¬ d.length - (bs.length - n) ≤ o := by omega
+          simp [this]
+        · simp [hle, RelB]
+  · intro n
+    refine ⟨?_, ?_⟩
+    · intro bs a ha
+      rw [slice_readBulk] at ha
+      split at ha
+      · cases ha; simp only [slicePos, List.length_drop]; omega
+      · cases ha
+    · intro bs s ⟨hd, hpos, hbs⟩ _
+      have hs := script_readBulk_stop sc o k id hstop hk n s hpos (by rw [hd]; exact ho)
+      rw [slice_readBulk]
+      have hlen : bs.length = d.length - s.pos := by rw [hbs]; simp
+      by_cases hn : s.pos + n ≤ o
+      · obtain ⟨s', h1, h2⟩ := hs.1 hn
+        have hle : n ≤ bs.length := by omega
+        simp only [hle, if_true, RelB, slicePos, List.length_drop]
+        have : d.length - (bs.length - n) ≤ o := by omega
+        simp only [this, if_true]
+        refine ⟨s', ?_, ?_, ?_, ?_⟩
+        · rw [h1, hbs, hd]
+        · rw [h2.data, hd]
+        · rw [h2.pos]; exact hn
+        · rw [h2.pos, hbs, List.drop_drop]
+      · have h1 := hs.2 hn
+        rw [h1]
+        by_cases hle : n ≤ bs.length
+        · simp only [hle, if_true, RelB, slicePos, List.length_drop]
+          have : ¬ d.length - (bs.length - n) ≤ o := by omega
+          simp [this]
+        · simp [hle, RelB]
+
+/-- the complete description of decoding from a reader that fails for good at stream offset `o`
+(any kind but `Interrupted`/`UnexpectedEof`, which the io conventions reserve for "retry" and "the
+stream ended"), for every type, stream, chunking and interrupt placement: compared with the
+slice decoder on the same bytes (`RelB`) -/
+theorem C11_failure_general (sc : Script) (o : Nat) (k : Kind) (id : Nat)
+    (hstop : sc.stop = some (o, .fail k id)) (hk : k ≠ .interrupted) (hk' : k ≠ .unexpectedEof)
+    (st : Bool) (t : Ty) (bs : Bytes) (ho : o ≤ bs.length) (intr : List (Nat × Nat)) :
+    RelB (SameStreamUpTo bs o) (slicePos bs) o (userErr k id)
+      (deserialize st t bs) (deserializeReader (Rd.script sc) st t ⟨bs, 0, intr⟩) := by
+  have hesc : mapEof (userErr k id) = userErr k id := by simp [mapEof, userErr, hk']
+  exact (de_simB (script_rdSimB sc o k id hstop hk bs ho) hesc t st).2 bs ⟨bs, 0, intr⟩
+    ⟨rfl, Nat.zero_le _, by simp⟩ (by simp [slicePos])
+
+/-- **A genuine reader failure while the value is being read is returned unchanged**: if the
+value occupies more than `o` bytes of the stream (the slice decoder, which cannot fail that way,
+advances past `o`) the caller gets exactly the reader's error — kind and message — whatever was
+decoded before it, however the reads were split and interrupted. -/
+theorem C11_hard_failure (sc : Script) (o : Nat) (k : Kind) (id : Nat)
+    (hstop : sc.stop = some (o, .fail k id)) (hk : k ≠ .interrupted) (hk' : k ≠ .unexpectedEof)
+    (st : Bool) (t : Ty) (bs rest : Bytes) (v : Val) (intr : List (Nat × Nat))
+    (h : deserialize st t bs = .ok (v, rest)) (hin : o < bs.length - rest.length) :
+    deserializeReader (Rd.script sc) st t ⟨bs, 0, intr⟩ = .err (userErr k id) := by
+  have := C11_failure_general sc o k id hstop hk hk' st t bs (by omega) intr
+  rw [h] at this
+  simp only [RelB, slicePos] at this
+  have hn : ¬ bs.length - rest.length ≤ o := by omega
+  simpa [hn] using this
+
+/-- **A failure the decoder never reaches is invisible**: if the value ends at or before offset
+`o`, the result is the value, and the reader stands exactly at the end of the value -/
+theorem C11_failure_after_value (sc : Script) (o : Nat) (k : Kind) (id : Nat)
+    (hstop : sc.stop = some (o, .fail k id)) (hk : k ≠ .interrupted) (hk' : k ≠ .unexpectedEof)
+    (st : Bool) (t : Ty) (bs rest : Bytes) (v : Val) (intr : List (Nat × Nat))
+    (h : deserialize st t bs = .ok (v, rest)) (hout : bs.length - rest.length ≤ o) (ho : o ≤ bs.length) :
+    ∃ s', deserializeReader (Rd.script sc) st t ⟨bs, 0, intr⟩ = .ok (v, s') ∧
+      s'.data = bs ∧ rest = bs.drop s'.pos := by
+  have := C11_failure_general sc o k id hstop hk hk' st t bs ho intr
+  rw [h] at this
+  simp only [RelB, slicePos, hout, if_true] at this
+  obtain ⟨s', h1, h2, _, h4⟩ := this
+  exact ⟨s', h1, h2, h4⟩
+
+/-- if the bytes themselves are malformed, the caller sees that error or the reader's failure,
+whichever the decoder meets first — never anything else -/
+theorem C11_failure_or_same_error (sc : Script) (o : Nat) (k : Kind) (id : Nat)
+    (hstop : sc.stop = some (o, .fail k id)) (hk : k ≠ .interrupted) (hk' : k ≠ .unexpectedEof)
+    (st : Bool) (t : Ty) (bs : Bytes) (e : Err) (intr : List (Nat × Nat))
+    (h : deserialize st t bs = .err e) (ho : o ≤ bs.length) :
+    deserializeReader (Rd.script sc) st t ⟨bs, 0, intr⟩ = .err e ∨
+    deserializeReader (Rd.script sc) st t ⟨bs, 0, intr⟩ = .err (userErr k id) := by
+  have := C11_failure_general sc o k id hstop hk hk' st t bs ho intr
+  rw [h] at this
+  simpa [RelB] using this
+
+/-- non-vacuity: a `(u16, String)` read in chunks of 1 and 2 with an interrupt, the reader failing
+with kind `user 7` at offset 5 (inside the string) — and the same failure at offset 8 (after the
+value) going unnoticed -/
+example :
+    (match deserializeReader (Rd.script ⟨[1, 2], some (5, .fail (.user 7) 42)⟩) false
+        (Ty.tuple [.int .u16, .str .string]) ⟨[1, 0, 2, 0, 0, 0, 104, 105], 0, [(3, 1)]⟩ with
+     | .err e => e == userErr (.user 7) 42
+     | _ => false) = true ∧
+    (match deserializeReader (Rd.script ⟨[1, 2], some (8, .fail (.user 7) 42)⟩) false
+        (Ty.tuple [.int .u16, .str .string]) ⟨[1, 0, 2, 0, 0, 0, 104, 105], 0, [(3, 1)]⟩ with
+     | .ok r => Val.beq r.1 (.list [.int 1, .blob [104, 105]]) && r.2.pos == 8
      | _ => false) = true := by
   decide +kernel
 
